@@ -2627,6 +2627,12 @@ static CK_RV AsymEncrypt(Session* session, CK_BYTE_PTR pData, CK_ULONG ulDataLen
 
 	// We must allow input length <= k and therfore need to prepend the data with zeroes.
 	if (mechanism == AsymMech::RSA) {
+		if (ulDataLen > size)
+		{
+			// Longer than the modulus: nothing to pad, the input cannot be processed
+			session->resetOp();
+			return CKR_DATA_LEN_RANGE;
+		}
 		data.wipe(size-ulDataLen);
 	}
 
@@ -4660,6 +4666,12 @@ static CK_RV AsymSign(Session* session, CK_BYTE_PTR pData, CK_ULONG ulDataLen, C
 
 	// We must allow input length <= k and therfore need to prepend the data with zeroes.
 	if (mechanism == AsymMech::RSA) {
+		if (ulDataLen > size)
+		{
+			// Longer than the modulus: nothing to pad, the input cannot be processed
+			session->resetOp();
+			return CKR_DATA_LEN_RANGE;
+		}
 		data.wipe(size-ulDataLen);
 	}
 
@@ -5625,6 +5637,12 @@ static CK_RV AsymVerify(Session* session, CK_BYTE_PTR pData, CK_ULONG ulDataLen,
 
 	// We must allow input length <= k and therfore need to prepend the data with zeroes.
 	if (mechanism == AsymMech::RSA) {
+		if (ulDataLen > size)
+		{
+			// Longer than the modulus: nothing to pad, the input cannot be processed
+			session->resetOp();
+			return CKR_DATA_LEN_RANGE;
+		}
 		data.wipe(size-ulDataLen);
 	}
 
